@@ -2,7 +2,7 @@
 //! `RevIndex::open(..).update(..)` and kills itself at the n-th hook point
 //! (`sourmash::index::revindex::verif_hooks::set_point_callback`).
 //!
-//! usage: c10_child <index_dir> <sig_dir> <n_datasets> <create|update> <kill_at|inf> <threads>
+//! usage: c10_child <index_dir> <sig_dir> <n_datasets> <create|update> <kill_at|inf|when:…> <threads>
 //!                  <kill|abort|exit> [<compaction_delay_us>]
 //!
 //! * the collection is the filesystem-backed one over `<sig_dir>/d0.sig … d{n-1}.sig`
@@ -10,6 +10,17 @@
 //! * a hook point is reached *before* every write, so `kill_at = n` leaves exactly the first `n`
 //!   writes of this run issued (with one rayon thread the numbering is deterministic);
 //! * `kill_at = inf` runs to completion and prints `total <number of points>`;
+//! * `when:<i>:<k>:<j1+j2+…|->:<block 0|1>:<settle_ms>` ("kill when"): the kill is decided by WHAT has
+//!   been written, not by a count.  The thread that arrives at the k-th point (0-based) of dataset i
+//!   (its k-th HASHES write, or its PROCESSED marker when k = number of hashes) kills the process once
+//!   the PROCESSED marker point of every dataset j in the list has been seen:
+//!   block = 1: it WAITS there (up to 5 s) until those markers have been reached, gives the marker
+//!   writes `settle_ms` to return, and dies — with more than one worker thread this forces the
+//!   order "later datasets complete and marked, an earlier one only partly written", i.e. a
+//!   processed set that is not a prefix of the collection;
+//!   block = 0: no waiting — it dies at the first point of dataset i at or after the k-th at which
+//!   the markers have been seen (the order is not fixed; every point of dataset i only sleeps
+//!   `settle` MICROseconds, a slow writer; the run completes if the condition never holds);
 //! * with `<compaction_delay_us>` the process is not killed *at* the compaction point but that many
 //!   microseconds after it, from a second thread, i.e. while `compact_range_cf` is running.
 //!
@@ -45,8 +56,54 @@ fn die() -> ! {
     }
 }
 
-fn point(kind: u8, _dataset: u32, _n: u64) {
+/// "kill when" mode: dataset i (u64::MAX = mode off), point number k of that dataset, bit mask of the
+/// datasets whose PROCESSED marker point must have been seen, block / settle
+static WHEN_IN: AtomicU64 = AtomicU64::new(u64::MAX);
+static WHEN_K: AtomicU64 = AtomicU64::new(0);
+static WHEN_MARKED: AtomicU64 = AtomicU64::new(0);
+static WHEN_BLOCK: AtomicU64 = AtomicU64::new(0);
+static WHEN_SETTLE_MS: AtomicU64 = AtomicU64::new(0);
+/// bit j set: the PROCESSED marker point of dataset j has been reached (its write follows at once)
+static MARK_SEEN: AtomicU64 = AtomicU64::new(0);
+/// number of points of dataset WHEN_IN seen so far
+static IN_POINTS: AtomicU64 = AtomicU64::new(0);
+
+fn marks_seen() -> bool {
+    let want = WHEN_MARKED.load(Ordering::SeqCst);
+    MARK_SEEN.load(Ordering::SeqCst) & want == want
+}
+
+fn point_when(kind: u8, dataset: u32) {
+    if kind == 1 && dataset < 64 {
+        MARK_SEEN.fetch_or(1u64 << dataset, Ordering::SeqCst);
+    }
+    if (kind == 0 || kind == 1) && dataset as u64 == WHEN_IN.load(Ordering::SeqCst) {
+        let c = IN_POINTS.fetch_add(1, Ordering::SeqCst);
+        let k = WHEN_K.load(Ordering::SeqCst);
+        if WHEN_BLOCK.load(Ordering::SeqCst) == 1 {
+            if c == k {
+                let t0 = std::time::Instant::now();
+                while !marks_seen() && t0.elapsed() < std::time::Duration::from_secs(5) {
+                    std::thread::sleep(std::time::Duration::from_millis(1));
+                }
+                std::thread::sleep(std::time::Duration::from_millis(WHEN_SETTLE_MS.load(Ordering::SeqCst)));
+                die()
+            }
+        } else {
+            if c >= k && marks_seen() {
+                die()
+            }
+            // slow writer: gives the other workers time without fixing the order
+            std::thread::sleep(std::time::Duration::from_micros(WHEN_SETTLE_MS.load(Ordering::SeqCst)));
+        }
+    }
+}
+
+fn point(kind: u8, dataset: u32, _n: u64) {
     let c = COUNT.fetch_add(1, Ordering::SeqCst);
+    if WHEN_IN.load(Ordering::SeqCst) != u64::MAX {
+        return point_when(kind, dataset);
+    }
     let delay = COMPACT_DELAY.load(Ordering::SeqCst);
     if kind == 3 && delay != u64::MAX {
         std::thread::spawn(move || {
@@ -69,7 +126,23 @@ pub fn child_main(a: &[String]) {
     let sig_dir = &a[1];
     let n: usize = a[2].parse().unwrap();
     let mode = a[3].as_str();
-    let kill_at: u64 = if a[4] == "inf" { u64::MAX } else { a[4].parse().unwrap() };
+    let kill_at: u64 = if a[4] == "inf" {
+        u64::MAX
+    } else if let Some(w) = a[4].strip_prefix("when:") {
+        let f: Vec<&str> = w.split(':').collect();
+        WHEN_K.store(f[1].parse().unwrap(), Ordering::SeqCst);
+        let mut mask = 0u64;
+        for j in f[2].split('+').filter(|x| *x != "-" && !x.is_empty()) {
+            mask |= 1u64 << j.parse::<u32>().unwrap();
+        }
+        WHEN_MARKED.store(mask, Ordering::SeqCst);
+        WHEN_BLOCK.store(f[3].parse().unwrap(), Ordering::SeqCst);
+        WHEN_SETTLE_MS.store(f[4].parse().unwrap(), Ordering::SeqCst);
+        WHEN_IN.store(f[0].parse().unwrap(), Ordering::SeqCst);
+        u64::MAX
+    } else {
+        a[4].parse().unwrap()
+    };
     let threads: usize = a[5].parse().unwrap();
     let how = match a[6].as_str() {
         "kill" => 0,
